@@ -8,7 +8,9 @@ HASHES = ["a", "b", "c", "a.b", "ab", ""]
 RANGES = ["1", "2", "10", "b.c", "c", "b"]
 NUMKEYS = ["1", "2", "10", "1.0", "007"]
 IDXVALS = ["x", "y", "z", "x.y", "xy", ""]
-NUMS = ["1", "2", "10", "1.5", "0.1", "-3", "100", "1e2", "007", "2.50", "0", "010", "0017", "8", "1234567890123456", "9007199254740991"]
+NUMS = ["1", "2", "10", "1.5", "0.1", "-3", "100", "1e2", "007", "2.50", "0", "010", "0017", "8", "1234567890123456", "9007199254740991",
+        # integer-valued numbers beyond the 64-bit integers (exactly representable in binary floating point)
+        "100000000000000000000", "-10000000000000000000", "1E+30", "9223372036854775808", "2e19"]
 TABLES = ["tbl", "tb2"]
 
 # binary keys: bytes below and above 0x10 mixed, values that are prefixes of each other, different lengths
@@ -83,6 +85,9 @@ class Gen:
         if r.random() < 0.04:
             # an attribute literally named like a name placeholder: it is an ordinary attribute, no expression touches it
             it[r.choice(["#g", "#n", "#a"])] = S(r.choice(IDXVALS))
+        if r.random() < 0.05:
+            # ... or like a value placeholder: the value sent with the request is what ":v" means, not this attribute
+            it[r.choice([":v", ":n", ":w", ":h", ":r", ":a"])] = r.choice([S(r.choice(IDXVALS)), N(r.choice(NUMS)), S(r.choice(HASHES))])
         for name in ["n", "s", "ss", "l", "m", "x"]:
             if r.random() < 0.3:
                 it[name] = {"n": lambda: N(r.choice(NUMS)), "s": lambda: S(r.choice(["", "x", "hello"])),
@@ -559,6 +564,10 @@ class ExprGen(Gen):
             # the same sentence written without the optional blanks around operators, commas and parentheses
             import re as _re
             e = _re.sub(r" ?(<>|<=|>=|=|<|>|,|\(|\)) ?", lambda m: r.choice([m.group(1), m.group(1) + " ", " " + m.group(1), m.group(0)]), e)
+        if ctx["values"] and r.random() < 0.08:
+            # the item owns an attribute named like a value placeholder of the condition: the request's value is what counts
+            ph = r.choice(sorted(ctx["values"]))
+            ctx["item"][ph] = self.typed_value(r.choice(["S", "N", "BOOL"]))
         return dict(op="match", expr=e, item=ctx["item"], names=ctx["names"], values=ctx["values"])
 
     # ---- update expressions: every action targets a different top-level attribute ----
@@ -591,10 +600,32 @@ class ExprGen(Gen):
             e = "SET %s = %s %s" % (tgt, rhs, later)
         return dict(op="lang_update", expr=e, item=it, names=ctx["names"], values=ctx["values"])
 
+    def remove_probe(self):
+        """REMOVE of map members and of elements of lists at different depths (a list inside a map, a list inside a list),
+        several in one expression and in any order"""
+        r = self.r
+        it = {"m": {"M": {"x": S("x"), "l": {"L": [S("a"), S("b")]}, "k": N("1")}}, "l": {"L": [N("1"), N("2"), N("3")]},
+              "ll": {"L": [{"L": [N("1"), N("2")]}, {"L": [N("3")]}]}, "c": S("keep")}
+        paths = r.sample(["m.x", "m.l[0]", "m.l[1]", "l[0]", "l[2]", "ll[0][1]", "ll[1][0]", "m.k", "l[1]", "ll[0]"], r.randrange(1, 4))
+        e = "REMOVE " + ", ".join(paths)
+        vals = {}
+        q = r.random()
+        if q < 0.3:
+            e = r.choice(["SET c = :v " + e, e + " SET c = :v"]); vals = {":v": S("new")}
+        elif q < 0.6:
+            # a later action of the same expression reads a list that has just lost an element
+            it["k"] = {"L": [S("z")]}
+            src = r.choice(["l", "m.l", "ll", "ll[0]"])
+            later = r.choice(["ADD k %s", "SET k = list_append(k, %s)", "SET k = %s", "SET k = list_append(%s, k)", "SET d = if_not_exists(nope, %s)"]) % src
+            e = r.choice([e + " " + later, later + " " + e])
+        return dict(op="lang_update", expr=e, item=it, names={}, values=vals)
+
     def update_case(self):
         r = self.r
         if r.random() < 0.12:
             return self.alias_probe()
+        if r.random() < 0.06:
+            return self.remove_probe()
         ctx = dict(names={}, values={}, item=self.expr_item())
         targets = r.sample(ATTRS + ["f", "g"], r.randrange(1, 5))
         clauses = {"SET": [], "REMOVE": [], "ADD": [], "DELETE": []}
@@ -632,6 +663,9 @@ class ExprGen(Gen):
         if ctx["names"] and r.random() < 0.25:
             # an attribute literally named like a placeholder of the expression: an ordinary attribute, left alone
             ctx["item"][r.choice(sorted(ctx["names"]))] = S("keep")
+        if ctx["values"] and r.random() < 0.12:
+            # ... or like a value placeholder: out of the expression's reach, it keeps its value
+            ctx["item"][r.choice(sorted(ctx["values"]))] = r.choice([S("keep"), N("5"), {"L": [S("x")]}])
         return dict(op="lang_update", expr=e, item=ctx["item"], names=ctx["names"], values=ctx["values"])
 
     # ---- malformed: token-level mutations of valid sentences, stray bytes ----
